@@ -225,9 +225,16 @@ func (it *indexedMessageIterator) loadChunk(chunkIndex *ChunkIndex) error {
 	}
 
 	compressedChunkLength := chunkIndex.ChunkLength
+	if compressedChunkLength < 9 || compressedChunkLength > uint64(it.fileSize) {
+		return fmt.Errorf("%w: chunk of length %d at offset %d", ErrBadOffset, compressedChunkLength, chunkIndex.ChunkStartOffset)
+	}
 	if uint64(cap(it.recordBuf)) < compressedChunkLength {
-		newCapacity := int(float64(compressedChunkLength) * chunkBufferGrowthMultiple)
-		it.recordBuf = make([]byte, compressedChunkLength, newCapacity)
+		newCapacity := uint64(float64(compressedChunkLength) * chunkBufferGrowthMultiple)
+		buf, err := makeSafe(newCapacity)
+		if err != nil {
+			return fmt.Errorf("failed to allocate chunk buffer: %w", err)
+		}
+		it.recordBuf = buf[:compressedChunkLength]
 	} else {
 		it.recordBuf = it.recordBuf[:compressedChunkLength]
 	}
